@@ -717,6 +717,71 @@ def _def_loops(ctx, rel, prefix_re, seq, suffix_of, what, expected):
               found=f"for {J.show(it[1])} in {J.show(it[2])}: " + " ".join(J.show(o[1]) for o in outs))
 
 
+def _partition_count(v, attr, owner):
+    """`len(A) + len(B) + ..` with every term a selection `[.. for x in net.<attr> if <test of flags of x>]` of the SAME sequence:
+    -> (True, "") when the tests partition the sequence (exactly one holds for every member), (False, witness) when some member is
+    counted twice or not at all; None when the value is not such a sum or a test is not a boolean combination of flags `x.<flag>`.
+    The flags are taken as independent, except that no species is both a grain and a surface species (the parser sets one kind)."""
+    def terms(e):
+        if e[0] == "binop" and e[1] == "Add":
+            a, b = terms(e[2]), terms(e[3])
+            return None if a is None or b is None else a + b
+        if e[0] == "call" and e[1] == ("global", "len") and len(e[2]) == 1 and not e[3]:
+            return [e[2][0]]
+        return None
+    ts = terms(v)
+    if not ts or len(ts) < 2:
+        return None
+    tests, flags = [], set()
+
+    def ev(c, x, env):
+        if c == ("const", True) or c == ("const", False):
+            return c[1]
+        if c[0] == "attr" and c[1] == x:
+            return env[c[2]]
+        if c[0] == "unop" and c[1] == "Not":
+            return not ev(c[2], x, env)
+        if c[0] == "bool":
+            vals = [ev(y, x, env) for y in c[2]]
+            return all(vals) if c[1] == "And" else any(vals)
+        raise KeyError
+
+    def collect(c, x):
+        if c[0] == "attr" and c[1] == x:
+            flags.add(c[2])
+        elif c[0] == "unop" and c[1] == "Not":
+            collect(c[2], x)
+        elif c[0] == "bool":
+            for y in c[2]:
+                collect(y, x)
+        else:
+            raise KeyError
+    for t in ts:
+        if t[0] == "acc" and owner is not None:
+            t = acc_comp(owner, t[1]) or t
+        m = as_map(t)
+        if not m or not (m[2][0] == "attr" and m[2][2] == attr):
+            return None
+        try:
+            for c in m[3]:
+                collect(c, m[0])
+        except KeyError:
+            return None
+        tests.append((m[0], m[3]))
+    if len(flags) > 5 or len({as_map(t if t[0] != "acc" or owner is None else (acc_comp(owner, t[1]) or t))[2] for t in ts}) != 1:
+        return None
+    fl_ = sorted(flags)
+    import itertools as _it
+    for bits in _it.product((False, True), repeat=len(fl_)):
+        env = dict(zip(fl_, bits))
+        if env.get("is_grain") and env.get("is_surface"):
+            continue
+        hits = sum(1 for x, cs in tests if all(ev(c, x, env) for c in cs))
+        if hits != 1:
+            return False, f"a member with {', '.join(k + '=' + str(b) for k, b in env.items())} is counted {hits} times"
+    return True, ""
+
+
 def _r4_defs(ctx, pkg):
     alias = lambda v: ("attr", v, "alias")
     for rel in (MACROS, PYIDX):
@@ -902,6 +967,14 @@ def _r4_defs(ctx, pkg):
                 arg = acc_comp(owner, arg[1]) or arg
             m = as_map(arg)
             ok = bool(m) and not m[3] and m[2][0] == "attr" and m[2][2] == attr and m[2][1][0] != "const"
+        part = _partition_count(v, attr, owner) if not ok else None
+        if part is not None:
+            okp, why = part
+            ctx.check(okp, "R5", f"render.py summary:{name}", (RENDER, f.line),
+                      f"{name} adds up the sizes of selections of net.{attr} that partition it" if okp else
+                      f"{name} adds up the sizes of selections of net.{attr} that do not partition it ({why}): the count disagrees with NSPECIES / the listed names",
+                      expected=f"len(net.{attr})", found=show(v)[:100])
+            continue
         if not ok and not (m and m[2][0] == "attr" and m[2][1][0] in ("param", "global", "attr", "call", "meth")):
             # not the length of a list built from an attribute of the network object: what is counted is not understood
             ctx.unrec("R5", f"render.py summary:{name}", (RENDER, f.line), f"{name} is not the length of a network sequence: {show(v)[:80]}")
@@ -2087,3 +2160,6 @@ MUTANTS += [
          '                "I" * (self.charge + 1) if self.charge >= 0 else "M" * abs(self.charge),\n            )\n'
          "            for key, value in replacement.items():\n                text = text.replace(key, value)\n            self._alias = text\n"}], "rules": ["R6"]},
 ]
+_NSPEC_OLD = '        summary["num_of_species"] = len(net.species)\n'
+MUTANTS += [{"name": "summary-count-adds-overlapping-groups", "file": RENDER, "old": _NSPEC_OLD, "new": '        summary["num_of_species"] = len(gas_species) + len(ice_species) + len(grain_species)\n', "rules": ["R5"]}]
+BENIGN += [{"name": "summary-count-adds-gas-and-ice", "file": RENDER, "old": _NSPEC_OLD, "new": '        summary["num_of_species"] = len(gas_species) + len(ice_species)\n'}]
